@@ -356,6 +356,16 @@ fn gen_plan(r: &mut Rng, toks: &[String], next_probe: &mut i32) -> Vec<Step> {
     let nsteps = r.weighted(&[0, 3, 3, 3, 2, 2, 1]);
     let mut plan = vec![];
     for _ in 0..nsteps {
+        if !plan.is_empty() && r.chance(1, 10) {
+            // withdraw an earlier injection, or clear a list nothing was injected into
+            let prev: Vec<(usize, usize)> = plan.iter().filter_map(|s| match s {
+                Step::At { idx, mode, .. } | Step::InjectAt { idx, mode, .. } => Some((*idx, *mode)),
+                _ => None,
+            }).collect();
+            let (idx, mode) = if !prev.is_empty() && r.chance(2, 3) { *r.pick(&prev) } else { (r.below(n), *r.pick(&[0usize, 1, 3, 4, 5])) };
+            plan.push(Step::ClearAt { idx, mode });
+            continue;
+        }
         let kind = r.weighted(&[12, 3, 3]);
         let np = r.range(1, 2);
         let probes: Vec<i32> = (0..np)
@@ -515,6 +525,7 @@ pub fn run(ctx: &mut Ctx) {
             match st {
                 Step::At { mode, .. } | Step::InjectAt { mode, .. } => ctx.count(&format!("mode={}", MODES[*mode].0)),
                 Step::Func { exit, .. } => ctx.count(if *exit { "mode=func_exit" } else { "mode=func_entry" }),
+                Step::ClearAt { .. } => ctx.count("step=clear_instr_at"),
                 _ => {}
             }
         }
